@@ -5,6 +5,7 @@ import (
 	"flag"
 	"reflect"
 	"sort"
+	"strconv"
 	"strings"
 	"sync/atomic"
 	"time"
@@ -108,6 +109,9 @@ func (t *vtree) toGo() interface{} {
 	for k, e := range t.D {
 		m[k] = e.toGo()
 	}
+	for i, e := range t.A { // mixed node: index keys (the worlds are built with a path separator)
+		m[strconv.Itoa(i)] = e.toGo()
+	}
 	return m
 }
 
@@ -118,8 +122,9 @@ type vworld struct {
 }
 
 type vworldOpts struct {
-	Split  int64 `json:"split"`  // != 0: build the root by two Merge calls over a split of the settings
-	Repeat int   `json:"repeat"` // > 0: create + unpack the whole config this many more times (C09)
+	Split  int64    `json:"split"`           // != 0: build the root by two Merge calls over a split of the settings
+	Repeat int      `json:"repeat"`          // > 0: create + unpack the whole config this many more times (C09)
+	Names  []string `json:"names,omitempty"` // the settings to read (default: the names of Gen_VarExp's world)
 }
 
 func (w *vworld) build(wo vworldOpts) (*ucfg.Config, []ucfg.Option, error) {
@@ -222,12 +227,16 @@ var varReadNames = []string{"a", "b", "c", "n.k", "n", "m", "l.0", "l.1.x"}
 
 // observeWorld performs every read of one case.  It runs inside a child process.
 func observeWorld(w *vworld, withFlat bool, wo vworldOpts) (o varObs) {
+	names := varReadNames
+	if len(wo.Names) > 0 {
+		names = wo.Names
+	}
 	c, opts, err := w.build(wo)
 	if err != nil {
 		o.Build = err.Error()
 		return
 	}
-	for _, n := range varReadNames {
+	for _, n := range names {
 		r := readObs{Name: n}
 		if s, err := c.String(n, -1, opts...); err != nil {
 			r.Str = map[string]interface{}{"err": varErrClass(err)}
@@ -462,6 +471,10 @@ func varReplay(args []string) int {
 		rep.nontrivial(c.W)
 		// one child request does every read; when the child dies the reads are repeated without
 		// FlattenedKeys/CompareConfigs so that the crash is attributed to the right entry point
+		var names []string
+		for _, r := range c.Reads {
+			names = append(names, r.Name)
+		}
 		oneShot := !expectsOverflow(c.Flat)
 		split := int64(0)
 		if *splitMerge {
@@ -471,11 +484,11 @@ func varReplay(args []string) int {
 			}
 			split = ((h ^ *seed) & 0x1ff) | 0x200
 		}
-		req, _ := json.Marshal(map[string]interface{}{"w": c.W, "flat": oneShot, "split": split, "repeat": *repeat})
+		req, _ := json.Marshal(map[string]interface{}{"w": c.W, "flat": oneShot, "split": split, "repeat": *repeat, "names": names})
 		resp, status := pool.do(req)
 		flatStatus := status
 		if status != "ok" && oneShot {
-			req, _ = json.Marshal(map[string]interface{}{"w": c.W, "flat": false, "split": split, "repeat": *repeat})
+			req, _ = json.Marshal(map[string]interface{}{"w": c.W, "flat": false, "split": split, "repeat": *repeat, "names": names})
 			resp, status = pool.do(req)
 		}
 		if status != "ok" {
@@ -556,7 +569,7 @@ func varReplay(args []string) int {
 		}
 		// FlattenedKeys + CompareConfigs
 		if !oneShot {
-			req, _ = json.Marshal(map[string]interface{}{"w": c.W, "flat": true, "split": split})
+			req, _ = json.Marshal(map[string]interface{}{"w": c.W, "flat": true, "split": split, "names": names})
 			_, flatStatus = pool.do(req)
 		}
 		flat := "returns"
